@@ -1206,6 +1206,10 @@ public:
     // Assign ghost variables to ref
     ghost_variables_t ref_gvars = get_or_insert_gvars(ref);
 
+    // ref is (re)defined: whatever was known about its previous value
+    // (e.g., that it was null or equal to another reference) is gone.
+    ref_gvars.forget(m_base_dom);
+
     // initialize ghost variables
     if (ref_gvars.has_offset_and_size()) {
       ref_gvars.get_offset_and_size().init(m_base_dom,
